@@ -358,6 +358,13 @@ func (e *kvElection) becomeLeader(token string, rev uint64) {
 	e.mu.Lock()
 	defer e.mu.Unlock()
 
+	// The election may have been stopped while the acquisition was in flight.
+	// Stop/StopWithContext clear the claim under this mutex, so a stopped
+	// election must not claim leadership, start loops or invoke OnPromote.
+	if e.ctx == nil || e.ctx.Err() != nil {
+		return
+	}
+
 	fromState := StateInit
 	if s := e.state.Load(); s != nil {
 		if str, ok := s.(string); ok {
@@ -477,6 +484,11 @@ func (e *kvElection) attemptPriorityTakeover(payloadBytes []byte) error {
 func (e *kvElection) becomeFollower() {
 	e.mu.Lock()
 	defer e.mu.Unlock()
+
+	// A stopped election stays STOPPED and does not start a watcher.
+	if e.ctx == nil || e.ctx.Err() != nil {
+		return
+	}
 
 	fromState := StateInit
 	if s := e.state.Load(); s != nil {
